@@ -62,10 +62,24 @@ pub fn encode_value(val: &Value) -> Result<Vec<u8>> {
     Ok(out)
 }
 
+/// Maximum nesting depth accepted by [`decode_value`].
+///
+/// The root value is at depth zero. A scalar wrapped in exactly 128 containers is
+/// accepted; one additional container is rejected. This bounds decoder recursion
+/// (and the recursion of every later walk or drop of the decoded value).
+pub const MAX_DECODE_DEPTH: usize = 128;
+
 /// Decode deterministic CBOR bytes into a `ciborium::value::Value`.
+///
+/// Hostile input cannot make this function panic, recurse deeper than
+/// [`MAX_DECODE_DEPTH`], or allocate out of proportion to `bytes.len()`: every
+/// array element and map entry needs at least one input byte, so the declared
+/// lengths of all containers together are charged against a budget of
+/// `bytes.len()` before any `Vec::with_capacity`.
 pub fn decode_value(bytes: &[u8]) -> Result<Value> {
     let mut idx = 0usize;
-    let v = dec_value(bytes, &mut idx)?;
+    let mut budget = bytes.len();
+    let v = dec_value(bytes, &mut idx, &mut budget, 0)?;
     if idx != bytes.len() {
         return Err(CanonError::Trailing);
     }
@@ -223,7 +237,20 @@ fn write_major(major: u8, n: u128, out: &mut Vec<u8>) {
     }
 }
 
-fn dec_value(bytes: &[u8], idx: &mut usize) -> Result<Value> {
+/// Charges `len` declared container elements against the remaining element budget.
+fn reserve_elements(budget: &mut usize, len: usize) -> Result<()> {
+    if len > *budget {
+        return Err(CanonError::Incomplete);
+    }
+    *budget -= len;
+    Ok(())
+}
+
+fn dec_value(bytes: &[u8], idx: &mut usize, budget: &mut usize, depth: usize) -> Result<Value> {
+    if depth > MAX_DECODE_DEPTH {
+        return Err(CanonError::Decode("nesting too deep".into()));
+    }
+
     fn need(bytes: &[u8], idx: usize, n: usize) -> Result<()> {
         if bytes.len().saturating_sub(idx) < n {
             Err(CanonError::Incomplete)
@@ -324,19 +351,21 @@ fn dec_value(bytes: &[u8], idx: &mut usize) -> Result<Value> {
         }
         4 => {
             let len = read_len(bytes, idx, info)? as usize;
+            reserve_elements(budget, len)?;
             let mut items = Vec::with_capacity(len);
             for _ in 0..len {
-                items.push(dec_value(bytes, idx)?);
+                items.push(dec_value(bytes, idx, budget, depth + 1)?);
             }
             Ok(Value::Array(items))
         }
         5 => {
             let len = read_len(bytes, idx, info)? as usize;
+            reserve_elements(budget, len)?;
             let mut entries = Vec::with_capacity(len);
             let mut last_key: Option<Vec<u8>> = None;
             for _ in 0..len {
                 let key_start = *idx;
-                let k = dec_value(bytes, idx)?;
+                let k = dec_value(bytes, idx, budget, depth + 1)?;
                 let key_end = *idx;
                 let kb = &bytes[key_start..key_end];
                 if let Some(prev) = &last_key {
@@ -347,7 +376,7 @@ fn dec_value(bytes: &[u8], idx: &mut usize) -> Result<Value> {
                     }
                 }
                 last_key = Some(kb.to_vec());
-                let v = dec_value(bytes, idx)?;
+                let v = dec_value(bytes, idx, budget, depth + 1)?;
                 entries.push((k, v));
             }
             Ok(Value::Map(entries))
